@@ -67,7 +67,9 @@ def _inputs_kept(run, prog):
                 while isinstance(b0, ast.Subscript):
                     b0 = b0.value
                 rs = roots.get(b0.id, set()) if isinstance(b0, ast.Name) else set()
-                if rs and rs <= opt:
+                whole = isinstance(st, ast.Assign) and isinstance(tg, ast.Subscript) and isinstance(tg.slice, ast.Slice) and tg.slice.lower is None \
+                    and tg.slice.upper is None
+                if rs and rs <= opt and whole:
                     run.notes.append('NOTE: C11-R5 %s overwrites its optional argument %s in place (%s); the property speaks of the returned iterate only'
                                      % (name, sorted(rs), text))
                 else:
@@ -149,6 +151,17 @@ def _roles(fn):
         out[n] = classify(n)
     out.update(role)
     return out, defs
+
+
+def _pre(node):
+    out = []
+
+    def go(n):
+        out.append(n)
+        for c in ast.iter_child_nodes(n):
+            go(c)
+    go(node)
+    return out
 
 
 def _sart(run, mod, fn0, constrained):
@@ -338,6 +351,21 @@ def _sart(run, mod, fn0, constrained):
         run.fail('C11-R2', K + 'iterate', mod.relpath, it.lineno, '%s does not copy x_new into x every iteration' % fn.name)
     else:
         run.undecided('C11-R2', fn.name + ' iterate update', 'refresh of yhat not recognised')
+    # the iterate that is returned is the one whose convergence was just tested: x := x_new stands before any exit from the iteration loop
+    copies = [st for t, v, st in stores(it) if not any(x is st for x in ast.walk(cl)) and isinstance(t, ast.Subscript) and isinstance(t.value, ast.Name)
+              and roles.get(t.value.id) == 'x']
+    exits = [b for b in ast.walk(it) if isinstance(b, (ast.Break, ast.Return)) and not any(x is b for x in ast.walk(cl))]
+    if copies and exits:
+        run.subject('C11-R2')
+        order = {id(n_): k_ for k_, n_ in enumerate(_pre(it))}
+        top_copy = [c_ for c_ in copies if any(c_ is st_ for st_ in it.body)]
+        early = [b for b in exits if not any(order[id(c_)] < order[id(b)] for c_ in top_copy)]
+        if early:
+            run.fail('C11-R2', K + 'exit-before-copy', mod.relpath, early[0].lineno,
+                     '%s leaves the iteration loop (line %d) before x := x_new of that iteration: when the convergence test ends the run the iterate '
+                     'returned is the previous one, not the one the reported convergence belongs to' % (fn.name, early[0].lineno))
+        else:
+            run.ok('C11-R2', fn.name + ' exit after copy', 'x := x_new precedes every exit of the iteration loop', sample=False)
     if constrained:
         run.subject('C11-R2')
         pens = [n for n, r in roles.items() if r and str(r).startswith('pen:')]
@@ -619,6 +647,10 @@ def _stack_eval(fn, solver, tik_given):
                 part = row_part(e.slice)
                 if part:
                     return getattr(base, part)
+                sl_ = e.slice.elts if isinstance(e.slice, ast.Tuple) else None
+                if sl_ and len(sl_) == 2 and full_slice(sl_[0]) and not full_slice(sl_[1]):
+                    # a selection of columns of the stacked matrix: unknowns are removed from the system the solver sees
+                    return _Stack(L('SEL(%s)[:, %s]' % (base.top.key(), norm(sl_[1]))), L('SEL(%s)[:, %s]' % (base.bottom.key(), norm(sl_[1]))))
             if isinstance(base, Rat):
                 return L('SEL(%s)[%s]' % (base.key(), norm(e.slice)))
             raise _Undec(norm(e))
@@ -767,6 +799,11 @@ def _stacked(run, prog):
                 continue
             opaque = [l for blk in (A.top, A.bottom, Bv.top, Bv.bottom) for l in blk.leaves() if l.startswith('?')]
             sel = [l for blk in (A.top, A.bottom, Bv.top, Bv.bottom) for l in blk.leaves() if l.startswith('SEL(')]
+            if sel and not tik_given and all('[:, ' in l for l in sel):
+                # with the identity as regulariser an unknown that is removed because nothing measures it has its optimum at zero anyway:
+                # not a violation of this case; the case with a given Tikhonov matrix decides
+                run.undecided('C11-R4', tag, 'columns of the system are selected (%s); harmless only for a diagonal regulariser' % sel[0][:40])
+                continue
             if sel:
                 run.fail('C11-R4', K + 'stacked-system', mi.relpath, fn.lineno,
                          '%s: the solver is given %s: a selection of rows/columns instead of the whole of W, b and L, so the minimised objective '
@@ -813,6 +850,13 @@ def _stacked(run, prog):
 
 
 MUTANTS = [
+    dict(name='convergence-exit-before-the-copy', file='cherab/tools/inversions/sart.pyx',
+         find="        # Set the new solution to be the old solution and get ready to repeat\n        solution_mv[:] = solution_new_mv[:]\n\n        # Check for convergence\n        if k > 0:\n            if np.abs(convergence[k]-convergence[k-1]) < conv_tol:\n                break\n",
+         replace="        # Check for convergence\n        if k > 0:\n            if np.abs(convergence[k]-convergence[k-1]) < conv_tol:\n                break\n\n        solution_mv[:] = solution_new_mv[:]\n", occurrence=1, of=2, expect='C11-R2'),
+    dict(name='tikhonov-matrix-scaled-in-place', file='cherab/tools/inversions/lstsq.py', find="    tikhonov_matrix = alpha * tikhonov_matrix\n", replace="    tikhonov_matrix *= alpha\n", expect='C11-R5'),
+    dict(name='unseen-voxels-dropped-from-the-system', file='cherab/tools/inversions/nnls.py',
+         find="    x_vector, rnorm = scipy.optimize.nnls(c_matrix / vmax, d_vector / vmax, **kwargs)\n",
+         replace="    seen = np.any(w_matrix != 0, axis=0)\n    x_vector = np.zeros(n)\n    x_vector[seen], rnorm = scipy.optimize.nnls(c_matrix[:, seen] / vmax, d_vector / vmax, **kwargs)\n", expect='C11-R4'),
     dict(name='stacked-system-typed-after-the-geometry-matrix', file='cherab/tools/inversions/nnls.py', find="    c_matrix = np.zeros((m+n, n))\n", replace="    c_matrix = np.zeros_like(w_matrix, shape=(m+n, n))\n", expect='C11-R5'),
     dict(name='ray-sums-memoised-by-identity', file='cherab/tools/inversions/sart.pyx',
          find="    cell_ray_densities = np.sum(geometry_matrix, axis=0)\n", replace="    global _LAST_G, _LAST_RHO\n    if geometry_matrix is not _LAST_G:\n        _LAST_RHO = np.sum(geometry_matrix, axis=0)\n        _LAST_G = geometry_matrix\n    cell_ray_densities = _LAST_RHO\n", occurrence=0, of=2, expect='C11-K'),
